@@ -142,19 +142,32 @@ Inductive status := Done | Cycle (c : N) | OutOfFuel.
 
 Definition entry := (N * option N)%type.
 
-Definition flush (to_visit : list N) : list entry := map (fun c => (c, None)) to_visit.
+(** [Itertools::unique]: first occurrences, order preserved. *)
+Fixpoint unique_from (seen : list N) (l : list N) : list N :=
+  match l with
+  | [] => []
+  | x :: t => if memN x seen then unique_from seen t else x :: unique_from (x :: seen) t
+  end.
+Definition unique (l : list N) : list N := unique_from [] l.
 
-Fixpoint walk (k : N) (ops : list (option pmap)) (to_visit : list N) : list entry * status :=
+(** [flush_commits] (evolution.rs:183-196): every remaining commit once. *)
+Definition flush (to_visit : list N) : list entry := map (fun c => (c, None)) (unique to_visit).
+
+(** The flush before repair 77438d6 (no de-duplication), kept for [C46_once_old_refuted]. *)
+Definition flush_old (to_visit : list N) : list entry := map (fun c => (c, None)) to_visit.
+
+Fixpoint walk_with (fl : list N -> list entry) (k : N) (ops : list (option pmap))
+  (to_visit : list N) : list entry * status :=
   match to_visit with
   | [] => ([], Done)                                   (* while !self.to_visit.is_empty() *)
   | _ :: _ =>
       match ops with
-      | [] => (flush to_visit, Done)                   (* op_ancestors exhausted *)
-      | None :: _ => (flush to_visit, Done)            (* !op.stores_commit_predecessors() *)
+      | [] => (fl to_visit, Done)                      (* op_ancestors exhausted *)
+      | None :: _ => (fl to_visit, Done)               (* !op.stores_commit_predecessors() *)
       | Some m :: rest =>
           match visit_op m to_visit with
           | VOk em tv =>
-              let r := walk (k + 1) rest tv in
+              let r := walk_with fl (k + 1) rest tv in
               (map (fun c => (c, Some k)) em ++ fst r, snd r)
           | VCycle c => ([], Cycle c)
           | VFuel => ([], OutOfFuel)
@@ -162,8 +175,13 @@ Fixpoint walk (k : N) (ops : list (option pmap)) (to_visit : list N) : list entr
       end
   end.
 
+Definition walk := walk_with flush.
+
 Definition walk_predecessors (ops : list (option pmap)) (start : list N) : list entry * status :=
   walk 0 ops start.
+
+Definition walk_predecessors_old (ops : list (option pmap)) (start : list N)
+  : list entry * status := walk_with flush_old 0 ops start.
 
 (** ** Correspondence case and the boolean checkers. *)
 Record case := mk_case {
@@ -263,20 +281,8 @@ Definition okb (c : case) : bool :=
         end
    else true).
 
-(** Known-finding class F6 (see Props/C46.v [C46_once_refuted]): a well-formed history in
-    which some reachable commit is recorded by no operation (imported from Git, or created
-    before predecessor records existed) and is reached along two paths; [flush_commits]
-    lists it once per path.  Everything else about the list is still required to hold. *)
-Definition known_class (c : case) : bool :=
-  let ms := some_prefix (c_ops c) in
-  negb (c_panicked c) && wfb ms && negb (closedb ms (c_start c))
-  && match c_cycle c with
-     | None => out_okb ms (c_start c) (c_out c) && negb (nodupb (map fst (c_out c)))
-     | Some _ => false
-     end.
-
 Definition check_case (c : case) : N :=
   let r := walk_predecessors (c_ops c) (c_start c) in
   let corr := list_eqb entry_eqb (fst r) (c_out c) && status_eqb (snd r) (c_cycle c)
               && negb (c_panicked c) in
-  verdict corr (okb c) (corr && known_class c) 1.
+  verdict corr (okb c) false 1.
